@@ -61,7 +61,9 @@ ERROR_DEFECTS = ("type", "dupid", "dupname", "type_deep", "dupid_deep", "dupid_p
 FAILS = ["none", "rdf_format", "ctrl_name", "ctrl_value", "ctrl_def", "json_obj",
          # text no encoder of a text file can hold: a lone surrogate (what os.fsdecode returns
          # for undecodable file names); a renderer that lets it through fails in write()
-         "surr_value", "surr_def", "surr_author"]
+         "surr_value", "surr_def", "surr_author",
+         # the same in the custom XSL template handed to the XML writer
+         "surr_template"]
 PRES = ["absent", "earlier", "dir"]
 ENTRIES = ["odml.save", "odml.save-noext", "ODMLWriter.write_file", "XMLWriter.write_file",
            "RDFWriter.write_file"]
@@ -76,6 +78,8 @@ def compatible(backend, kwargs, fail, entry):
     if entry == "RDFWriter.write_file" and backend != "rdf":
         return False
     if fail == "rdf_format" and backend != "rdf":
+        return False
+    if fail == "surr_template" and not (backend == "xml" and kwargs.get("custom_template")):
         return False
     return True
 
@@ -262,6 +266,8 @@ def run_case(case):
             kwargs = dict(cell["kwargs"])
             if cell["fail"] == "rdf_format":
                 kwargs["rdf_format"] = "bogus-format"
+            if cell["fail"] == "surr_template":
+                kwargs["custom_template"] = kwargs["custom_template"].replace("<p>", "<p>\udcff")
             doc = build_doc(odml, cell["defect"], cell["fail"], cell.get("variant", 0))
             fname, may_write = target_of(cell["entry"], cell["backend"], cell["kwargs"], cell["name"])
             if cell["fail"] == "rdf_format" and cell["entry"] != "odml.save-noext":
